@@ -40,6 +40,7 @@ type RunOpts struct {
 	Plan      *FaultPlan
 	NoFinal   bool // skip the end-of-case comparison (engines that do their own)
 	KeepData  bool // log the payload of every write (C03)
+	NoLog     bool // do not keep the file call log (long scans)
 	// InitImage/InitDurable start the case on an existing file image whose
 	// durable states are known (C03: a crash image and what must be recoverable).
 	InitImage   []byte
@@ -152,6 +153,9 @@ func (w *World) run() {
 		w.file = NewMemFile("main")
 		w.file.Plan = w.opt.Plan
 		w.file.KeepData = w.opt.KeepData
+		if w.opt.NoLog {
+			w.file.KeepLog = false
+		}
 		if w.opt.Lazy {
 			w.lazy = newLazyState()
 		}
